@@ -17,7 +17,6 @@ import (
 	"sync/atomic"
 	"time"
 
-	"verif/checks/nbtx"
 	"verif/engine"
 	"verif/ref/refnbt"
 )
@@ -30,7 +29,7 @@ type Case struct {
 }
 
 var (
-	entries = nbtx.Entries()
+	entries = buildEntries()
 	rep     *engine.Report
 	wd      *engine.Watchdog
 	guarded int64
@@ -87,7 +86,7 @@ func runOne(slot int, data []byte, ei int, network bool, v verdict, origin strin
 		return string(b)
 	})
 	kind, frame, panicked := engine.Guard(func() {
-		_, _, err = e.Run(nbtx.Bytes(data), network)
+		err = e.Run(data, network)
 	})
 	wd.End(slot)
 	if panicked {
@@ -124,10 +123,15 @@ func runAll(slot int, data []byte, origin string) {
 		} else {
 			atomic.AddInt64(&wellOK, 1)
 		}
+		n := 0
 		for ei := range entries {
+			if network && !entries[ei].Net || !network && !entries[ei].File {
+				continue
+			}
 			runOne(slot, data, ei, network, v, origin)
+			n++
 		}
-		rep.Eval(int64(len(entries)))
+		rep.Eval(int64(n))
 	}
 }
 
@@ -312,7 +316,11 @@ func famB(nFull, nRed int, deadline time.Time) {
 // prefix of a document and must be rejected.
 var overflowLens = []int64{0x10000000, 0x1fffffff, 0x20000000, 0x20000001, 0x3fffffff, 0x40000000, 0x40000001, 0x7fffffff}
 
-var nonAllocating = map[string]bool{"struct-skip-all": true, "raw": true, "raw-string": true, "stringified": true, "map-raw": true}
+var nonAllocating = map[string]bool{"struct-skip-all": true, "raw": true, "raw-string": true, "stringified": true, "map-raw": true,
+	"unmarshal-raw": true, "unmarshal-stringified": true, "rawmsg-direct-string": true}
+
+// entries that skip/copy without allocating only INSIDE a root compound
+var compoundOnly = map[string]bool{"struct-skip-all": true, "map-raw": true}
 
 func famC(n int) {
 	var docs, cases int64
@@ -343,7 +351,10 @@ func famC(n int) {
 				for ei, e := range entries {
 					// struct and map targets only skip/capture values INSIDE a root compound; a root
 					// array would be allocated by its declared length before the type check
-					if nonAllocating[e.Name] && (tree.Tag == refnbt.Compound || e.Name == "raw" || e.Name == "raw-string" || e.Name == "stringified") {
+					if network && !e.Net || !network && !e.File {
+						continue
+					}
+					if nonAllocating[e.Name] && (tree.Tag == refnbt.Compound || !compoundOnly[e.Name]) {
 						runOne(slot, m, ei, network, ver, "famC:overflow-probe")
 						atomic.AddInt64(&cases, 1)
 					}
